@@ -1,26 +1,26 @@
-\* generated by lib/slices.py from slice 'rgate' - do not edit
+\* generated by lib/slices.py from slice 'ids_edge' - do not edit
 SPECIFICATION Spec
 VIEW view
 CHECK_DEADLOCK FALSE
 PROPERTY NoViolation
 ACTION_CONSTRAINT PrintEdge
 CONSTANTS
- Roles = {"any", "client", "server"}
- Vers = {"undet", "v311", "v50"}
+ Roles = {"client"}
+ Vers = {"v311", "v50"}
  Idws = {16}
  CheckProps = {"C05", "C06", "C07", "C08", "C10", "C11", "C12", "C13", "C14", "C15", "C16", "C17", "C19"}
  OptSets = {{}}
  RespTimeouts = {0}
  MaxConns = 1
- MaxHeld = 0
+ MaxHeld = 2
  MaxUsed = 2
- AppKinds = {}
- PeerKinds = {"auth", "disconnect", "pingreq", "pingresp", "puback", "pubcomp", "publish", "pubrec", "pubrel", "suback", "subscribe", "unsuback", "unsubscribe"}
- QosSet = {0, 1}
+ AppKinds = {"publish", "subscribe"}
+ PeerKinds = {"puback", "suback"}
+ QosSet = {1}
  Topics = {"t1"}
  Aliases = {0}
  InPids = {1}
- ExtraPids = {9}
+ ExtraPids = {65535}
  Rcs = {0}
  Cleans = {TRUE}
  KAs = {0}
@@ -35,15 +35,15 @@ CONSTANTS
  AckMPSs = {99999}
  AckSEIs = {99999}
  SKAs = {99999}
- RogueHandshake = TRUE
+ RogueHandshake = FALSE
  PartialFrames = FALSE
  Intervals = {}
  Fire = FALSE
- Close = FALSE
+ Close = TRUE
  Erase = FALSE
- IdOps = FALSE
+ IdOps = TRUE
  Crash = FALSE
  Garbage = FALSE
- BadFrames = {"connect"}
+ BadFrames = {}
  SendWhileDisc = FALSE
- PeerWhileDisc = TRUE
+ PeerWhileDisc = FALSE
